@@ -270,8 +270,77 @@ SAML = 'github.com/crewjam/saml.'
 
 @intrinsic('verifMaterialise')
 def i_materialise(I, args, ins):
+    return tag_bytes(I, ('serialize', response_element(I, args[0])), 'docbytes')
+
+
+NS_SOAP = 'http://schemas.xmlsoap.org/soap/envelope/'
+
+
+@intrinsic('verifMaterialiseArtifact')
+def i_materialise_artifact(I, args, ins):
     ctx = I.ctx
-    d = ctx.load(ctx.force(args[0]))
+    T = SAML + 'verifArtifactDoc'
+    ad = ctx.load(ctx.force(args[0]))
+    AR = ctx.load(ctx.force(fld(I, T, ad, 'AR')))
+    sign = ctx.concretize(fld(I, T, ad, 'SignAR'), 0, 2, 'signar')
+    el = new_el(I, 'samlp:ArtifactResponse')
+    set_attr(I, el, 'xmlns:saml', NS_SAML)
+    set_attr(I, el, 'xmlns:samlp', NS_SAMLP)
+    set_attr(I, el, 'ID', fld(I, SAML + 'ArtifactResponse', AR, 'ID'))
+    bind_value(I, el, SAML + 'ArtifactResponse', AR)
+    add_child(I, el, response_element(I, fld(I, T, ad, 'D')))
+    if sign:
+        kl = ctx.concretize(fld(I, T, ad, 'KeyInfo'), 0, 3, 'keyinfo')
+        add_child(I, el, make_signature(I, el, (0, sign - 1), keyinfo_layout(sign - 1, kl)))
+    env = new_el(I, 'soap:Envelope')
+    set_attr(I, env, 'xmlns:soap', NS_SOAP)
+    body = new_el(I, 'soap:Body')
+    add_child(I, body, el)
+    add_child(I, env, body)
+    return tag_bytes(I, ('serialize', env), 'docbytes')
+
+
+NS_XENC = 'http://www.w3.org/2001/04/xmlenc#'
+XMLENC_DECRYPT = 'github.com/crewjam/saml/xmlenc.Decrypt'
+
+
+def encrypted_assertion(I, plain_el, to):
+    """<saml:EncryptedAssertion><xenc:EncryptedData/></saml:EncryptedAssertion> whose EncryptedData stands for
+    `plain_el` encrypted to test key `to` (contract: xmlenc.Decrypt with that private key returns its bytes,
+    with any other key an error; anyone can produce such an element from the public certificate)."""
+    ctx = I.ctx
+    enc = new_el(I, 'saml:EncryptedAssertion')
+    set_attr(I, enc, 'xmlns:saml', NS_SAML)
+    data = new_el(I, 'xenc:EncryptedData')
+    set_attr(I, data, 'xmlns:xenc', NS_XENC)
+    m = new_marker(I, 'e')
+    ctx.ghost.setdefault('enc', {})[m] = (to, plain_el)
+    set_marker(I, data, 'enc', m)
+    add_child(I, enc, data)
+    return enc
+
+
+def xmlenc_decrypt(I, args, ins):
+    from .cryptostubs import test_key
+    ctx = I.ctx
+    key, el = ctx.force(args[0]), ctx.force(args[1])
+    m = get_marker(I, el, 'enc') if el is not None else None
+    if m is None:
+        return I.exec_function(I.prog.funcs[XMLENC_DECRYPT], args, ())
+    to, plain = ctx.ghost['enc'][m]
+    kp = ctx.force(key.val) if isinstance(key, Iface) else None
+    ctx.event('xmlenc.Decrypt', to)
+    if isinstance(kp, Ptr) and kp == test_key(I, *to)['priv']:
+        return TupleV((tag_bytes(I, ('serialize', plain), 'plaintext'), None))
+    return TupleV((NIL_SLICE, ctx.new_error('xmlenc', msg='crypto/rsa: decryption error')))
+
+
+STUBS[XMLENC_DECRYPT] = xmlenc_decrypt
+
+
+def response_element(I, dptr):
+    ctx = I.ctx
+    d = ctx.load(ctx.force(dptr))
     DT = SAML + 'verifDoc'
     rptr = ctx.force(fld(I, DT, d, 'R'))
     sign_resp = ctx.concretize(fld(I, DT, d, 'SignResponse'), 0, 2, 'signresp')
@@ -293,12 +362,15 @@ def i_materialise(I, args, ins):
         if sign:
             kl = ctx.concretize(fld(I, AT, da, 'KeyInfo'), 0, 3, 'keyinfo')
             add_child(I, ael, make_signature(I, ael, (0, sign - 1), keyinfo_layout(sign - 1, kl)))
+        enc = ctx.concretize(fld(I, AT, da, 'Encrypt'), 0, 2, 'encrypt')
+        if enc:
+            ael = encrypted_assertion(I, ael, (0, 1 + enc))
         add_child(I, resp, ael)
     if sign_resp:
         # the Response signature is made over the complete element (assertions included)
         kl = ctx.concretize(fld(I, DT, d, 'KeyInfo'), 0, 3, 'keyinfo')
         add_child(I, resp, make_signature(I, resp, (0, sign_resp - 1), keyinfo_layout(sign_resp - 1, kl)))
-    return tag_bytes(I, ('serialize', resp), 'docbytes')
+    return resp
 
 
 @intrinsic('verifMaterialiseLogout')
@@ -423,6 +495,11 @@ def doc_read_from_bytes(I, args, ins):
     h = READ_HOOK[0]
     if h is not None:
         return h(I, doc, buf, ins)
+    if isinstance(buf, Slice) and isinstance(buf.len, int):
+        # concrete text without any markup: etree reads character data only and leaves the document without a root
+        el = I.slice_elems(buf) if buf.len else []
+        if all(isinstance(e, int) and e not in (0x3c, 0x26) for e in el):
+            return None
     if ctx.choose(2, 'parse-err') == 1:
         return ctx.new_error('etree', msg='etree: parse error')
     raise Inconclusive('etree parse of bytes that are not a modelled document')
